@@ -77,11 +77,12 @@ func WorkerMain(args []string) int {
 			return 97
 		}
 		fmt.Fprintf(journal, "B %d\n", idx)
+		cpu0 := processCPU()
 		timer := time.AfterFunc(timeout, func() {
 			fmt.Fprintf(journal, "T %d\n", idx)
 			buf := make([]byte, 1<<20)
 			n := runtime.Stack(buf, true)
-			fmt.Fprintf(os.Stderr, "verif: watchdog fired after %s\n%s\n", timeout, buf[:n])
+			fmt.Fprintf(os.Stderr, "verif: watchdog fired after %s cpu=%.1fs period=%.1fs\n%s\n", timeout, processCPU()-cpu0, timeout.Seconds(), buf[:n])
 			os.Exit(3)
 		})
 		r := p.Run(c)
@@ -159,6 +160,11 @@ func parseCrash(stderr string, exit int, timedOut bool) Crash {
 	}
 	if cr.Kind == "watchdog" {
 		cr.Deadlock, cr.BlockedIn = deadlockInDump(stderr)
+		if m := watchdogCPURe.FindStringSubmatch(stderr); m != nil {
+			cr.CPUSeconds, _ = strconv.ParseFloat(m[1], 64)
+			cr.WatchdogS, _ = strconv.ParseFloat(m[2], 64)
+		}
+		cr.RunningIn = runningInDump(stderr)
 	}
 	if strings.Contains(cr.Message, StepBudgetMsg) {
 		cr.Kind = "step-budget"
@@ -445,6 +451,15 @@ func Supervise(o Options) Summary {
 					r.Sig = "wedged:deadlock:" + cr.BlockedIn
 					r.Why = "the run can never finish: when the watchdog fired every goroutine inside the repository's code was blocked on a lock or channel (" + cr.BlockedIn + ")\n" + tailStr(cr.StderrTail, 1500)
 				}
+				if cr.Kind == "watchdog" && !cr.Deadlock && r.Verdict == Inconclusive && cr.RunningIn != "" && cr.WatchdogS > 0 && cr.CPUSeconds >= 0.75*cr.WatchdogS {
+					// not starved by a loaded machine: the worker burned (nearly) the whole watchdog
+					// period of processor time inside the repository's code without finishing a case
+					// that normally takes milliseconds (bounded progress, measured in the worker's own
+					// processor time, which machine load does not inflate)
+					r.Verdict, r.Nontrivial = Violated, true
+					r.Sig = "wedged:spinning:" + cr.RunningIn
+					r.Why = fmt.Sprintf("the case does not finish: the worker consumed %.0f s of processor time in %.0f s without completing it, running in %s\n%s", cr.CPUSeconds, cr.WatchdogS, cr.RunningIn, tailStr(cr.StderrTail, 1200))
+				}
 				if cr.Kind == "watchdog" || (cr.Kind == "killed" && timedOut) {
 					mu.Lock()
 					wedges++
@@ -724,6 +739,53 @@ func Supervise(o Options) Summary {
 	fmt.Printf("SUMMARY property=%s tier=%s seed=%d cases=%d evaluations=%d distinct_nontrivial=%d violations=%d known=%d inconclusive=%d wall=%.1fs\n",
 		o.Prop, o.Tier, o.Seed, len(outs), evals, len(distinct), sum.Violations, len(sum.Known), inconclusive, time.Since(start).Seconds())
 	return sum
+}
+
+var watchdogCPURe = regexp.MustCompile(`verif: watchdog fired after \S+ cpu=([0-9.]+)s period=([0-9.]+)s`)
+
+// processCPU is the processor time (user + system, all threads) this process has consumed so far.
+func processCPU() float64 {
+	var ru syscall.Rusage
+	if syscall.Getrusage(syscall.RUSAGE_SELF, &ru) != nil {
+		return 0
+	}
+	return float64(ru.Utime.Sec+ru.Stime.Sec) + float64(ru.Utime.Usec+ru.Stime.Usec)/1e6
+}
+
+// runningInDump names the first /repo function on the stack of a goroutine that was running or
+// runnable when the watchdog fired ("" if there is none).
+func runningInDump(stderr string) string {
+	i := strings.Index(stderr, "verif: watchdog fired")
+	if i < 0 {
+		return ""
+	}
+	const repo = "github.com/smarthome-go/homescript/v3/"
+	for _, b := range strings.Split(stderr[i:], "\n\n") {
+		b = strings.TrimSpace(b)
+		if j := strings.Index(b, "goroutine "); j > 0 {
+			b = b[j:]
+		}
+		if !strings.HasPrefix(b, "goroutine ") || !strings.Contains(b, repo) {
+			continue
+		}
+		head := b
+		if k := strings.Index(b, "\n"); k > 0 {
+			head = b[:k]
+		}
+		if !strings.Contains(head, "[running") && !strings.Contains(head, "[runnable") {
+			continue
+		}
+		for _, ln := range strings.Split(b, "\n") {
+			if strings.HasPrefix(ln, repo) {
+				f := strings.TrimPrefix(ln, repo+"homescript/")
+				if k := strings.LastIndex(f, "("); k > 0 {
+					f = f[:k]
+				}
+				return f
+			}
+		}
+	}
+	return ""
 }
 
 // deadlockInDump reads the goroutine dump a watchdog wrote: it reports a deadlock when at least one
